@@ -135,10 +135,24 @@ Definition nodefer (o : Obj) : Prop :=
   forall op fl af, opInfo (o_infoIndex o) = Some (op, fl, af) ->
     hasFlag fl aml_pOpFlagDeferParsing = false /\ forall k, k < 8 -> argType af k <> aml_pArgTypeFieldList.
 
+(** [mx]: the concrete typing - the first argument is a CHILDLESS pOpIntNamePath object with the name-path row, the second a
+    pOpBytePrefix object with its row (so that the last two passes of ParseAML never take the second argument away) *)
+Definition mx (g : ghost) (a0 : N) (a0o a1o : Obj) : Prop :=
+  o_opcode a0o = aml_pOpIntNamePath /\ o_infoIndex a0o = npIdx /\ kids g a0 = [] /\
+  o_opcode a1o = aml_pOpBytePrefix /\ o_infoIndex a1o = bpIdx.
+
 Definition mtyped (s : pstate) (g : ghost) (m : N) : Prop :=
   exists a0 a1 rest a0o a1o v, kids g m = a0 :: a1 :: rest /\
     tget (p_tree s) a0 = Some a0o /\ nodefer a0o /\
-    tget (p_tree s) a1 = Some a1o /\ o_value a1o = Some (VNum v) /\ nodefer a1o.
+    tget (p_tree s) a1 = Some a1o /\ o_value a1o = Some (VNum v) /\ nodefer a1o /\ mx g a0 a0o a1o.
+
+(** [c] does not carry the name-path row (so it is not the first argument of a typed Method) *)
+Definition nnp (s : pstate) (c : N) : Prop := forall co, tget (p_tree s) c = Some co -> o_infoIndex co <> npIdx.
+
+Lemma mx_pnv g g' a0 (a0o a0o' a1o a1o' : Obj) : pnv a0o a0o' -> pnv a1o a1o' -> kids g' a0 = kids g a0 -> mx g a0 a0o a1o -> mx g' a0 a0o' a1o'.
+Proof.
+  intros (A1 & A2 & _) (B1 & B2 & _) Ek (C1 & C2 & C3 & C4 & C5). unfold mx. rewrite A1, A2, B1, B2, Ek. auto.
+Qed.
 
 Definition TM (X : N -> Prop) (s : pstate) (g : ghost) : Prop :=
   forall m mo, tget (p_tree s) m = Some mo -> o_opcode mo = aml_pOpMethod -> ~ X m -> mtyped s g m.
@@ -152,6 +166,12 @@ Proof. intros Hs H m mo Hm Hop Hx. apply (H m mo Hm Hop). intros F. apply Hx. ea
 Lemma TM_tree_eq X s g s' : TM X s g -> p_tree s' = p_tree s -> TM X s' g.
 Proof. intros H E m mo Hm Hop Hx. rewrite E in Hm. destruct (H m mo Hm Hop Hx) as (a0 & a1 & rest & a0o & a1o & v & K).
   exists a0, a1, rest, a0o, a1o, v. rewrite E. exact K. Qed.
+
+Lemma nnp_keep P s g s' c : keep P s g s' -> R (p_tree s) g -> glive g c -> nnp s c -> nnp s' c.
+Proof.
+  intros K HR Hl Hn co' Hco'. destruct (R_live_glive _ _ HR c) as (_ & Hlv). destruct (Hlv Hl) as (co & Hco & _).
+  destruct (K c co Hl Hco) as (co2 & Hco2 & (_ & E2 & _) & _). assert (co2 = co') by congruence. subst. rewrite E2. apply (Hn co Hco).
+Qed.
 
 Lemma nodefer_pnv (o o' : Obj) : pnv o o' -> nodefer o -> nodefer o'.
 Proof. intros (_ & E & _) H op fl af Hr. rewrite E in Hr. eapply H; eauto. Qed.
@@ -168,9 +188,10 @@ Lemma mtyped_frame (P XX E : N -> Prop) s g s' g' m :
   (E m -> forall a0 a1 rest, kids g m = a0 :: a1 :: rest -> exists rest', kids g' m = a0 :: a1 :: rest') ->
   (E m \/ ~ E m) ->
   (forall i o, P i -> tget (p_tree s) i = Some o -> ~ nodefer o) ->
+  (forall i, XX i -> nnp s i) -> (forall y, E y -> kids g y <> []) ->
   mtyped s g m -> mtyped s' g' m.
 Proof.
-  intros Hwf [K G] Hl HE Hdec HP (a0 & a1 & rest & a0o & a1o & v & Hk & Ha0 & Hn0 & Ha1 & Hv & Hn1).
+  intros Hwf [K G] Hl HE Hdec HP HXn HEk (a0 & a1 & rest & a0o & a1o & v & Hk & Ha0 & Hn0 & Ha1 & Hv & Hn1 & Hmx).
   assert (Hk' : exists rest', kids g' m = a0 :: a1 :: rest').
   { destruct Hdec as [Em|Em]; [apply (HE Em a0 a1 rest Hk)|].
     destruct (G m Hl Em) as ((extra & Ek) & _). exists (rest ++ extra). rewrite Ek, Hk. reflexivity. }
@@ -180,8 +201,11 @@ Proof.
   destruct (K a0 a0o Hl0 Ha0) as (a0o' & Ha0' & E0 & _).
   destruct (K a1 a1o Hl1 Ha1) as (a1o' & Ha1' & E1 & V1).
   exists a0, a1, rest', a0o', a1o', v. split; [exact Ek|].
-  split; [exact Ha0'|]. split; [eapply nodefer_pnv; eauto|]. split; [exact Ha1'|]. split; [|eapply nodefer_pnv; eauto].
-  rewrite V1; [exact Hv|]. intros F. apply (HP a1 a1o F Ha1). exact Hn1.
+  split; [exact Ha0'|]. split; [eapply nodefer_pnv; eauto|]. split; [exact Ha1'|].
+  split; [rewrite V1; [exact Hv|]; intros F; apply (HP a1 a1o F Ha1); exact Hn1|]. split; [eapply nodefer_pnv; eauto|].
+  apply (mx_pnv g g' a0 a0o a0o' a1o a1o' E0 E1); [|exact Hmx].
+  destruct Hmx as (_ & M2 & M3 & _).
+  destruct (G a0 Hl0) as (_ & Hex); [intros F; apply (HEk a0 F); exact M3|]. apply Hex. intros F. apply (HXn a0 F a0o Ha0). exact M2.
 Qed.
 
 (** the Methods that were there stay typed; a Method among the excluded nodes must keep its first two arguments *)
@@ -197,16 +221,17 @@ Lemma TM_frame (X P XX E : N -> Prop) s g s' g' :
   gwf g -> R (p_tree s) g -> TM X s g -> Fr P XX E s g s' g' ->
   (forall i o, P i -> tget (p_tree s) i = Some o -> ~ nodefer o) ->
   Eok E s g g' ->
+  (forall i, XX i -> nnp s i) -> (forall y, E y -> kids g y <> []) ->
   TM (fun m => X m \/ ~ glive g m) s' g'.
 Proof.
-  intros Hwf HR H F HP (Hdec & HE) m mo' Hm' Hop Hx.
+  intros Hwf HR H F HP (Hdec & HE) HXn HEk m mo' Hm' Hop Hx.
   assert (Hl : glive g m).
   { destruct (glive_dec g m) as [Hl|Hl]; [exact Hl|]. exfalso. apply Hx. right. exact Hl. }
   destruct (R_live_glive _ _ HR m) as (_ & Hlv). destruct (Hlv Hl) as (mo & Hm & Hlm).
   destruct (fr_keep _ _ _ _ _ _ _ F m mo Hl Hm) as (mo2 & Hm2 & E2 & _).
   assert (mo2 = mo') by congruence. subst mo2. destruct E2 as (E2 & _).
   assert (Hop0 : o_opcode mo = aml_pOpMethod) by congruence.
-  eapply mtyped_frame; [exact Hwf|exact F|exact Hl| |apply Hdec|exact HP|].
+  eapply mtyped_frame; [exact Hwf|exact F|exact Hl| |apply Hdec|exact HP|exact HXn|exact HEk|].
   - intros F'. exact (HE m mo F' Hm Hop0).
   - apply (H m mo Hm Hop0). intros F'. apply Hx. left. exact F'.
 Qed.
@@ -216,13 +241,14 @@ Lemma TM_frame2 (X X' P XX E : N -> Prop) s g s' g' :
   gwf g -> R (p_tree s) g -> TM X s g -> Fr P XX E s g s' g' ->
   (forall i o, P i -> tget (p_tree s) i = Some o -> ~ nodefer o) ->
   Eok E s g g' ->
+  (forall i, XX i -> nnp s i) -> (forall y, E y -> kids g y <> []) ->
   (forall m mo, tget (p_tree s') m = Some mo -> o_opcode mo = aml_pOpMethod -> glive g m -> X m -> X' m) ->
   (forall m mo, tget (p_tree s') m = Some mo -> o_opcode mo = aml_pOpMethod -> ~ glive g m -> X' m \/ mtyped s' g' m) ->
   TM X' s' g'.
 Proof.
-  intros Hwf HR H F HP HE Hold Hnew m mo' Hm' Hop Hx'.
+  intros Hwf HR H F HP HE HXn HEk Hold Hnew m mo' Hm' Hop Hx'.
   destruct (glive_dec g m) as [Hl|Hl].
-  - pose proof (TM_frame X P XX E s g s' g' Hwf HR H F HP HE) as H'.
+  - pose proof (TM_frame X P XX E s g s' g' Hwf HR H F HP HE HXn HEk) as H'.
     apply (H' m mo' Hm' Hop). intros [Fx|Fx]; [apply Hx'; eapply Hold; eauto|contradiction].
   - destruct (Hnew m mo' Hm' Hop Hl) as [Fx|Ht]; [contradiction|exact Ht].
 Qed.
@@ -243,7 +269,8 @@ Definition ucost (ty : N) : N := if unpaid ty then 1 else 0.
 (** a Method object whose arguments are being parsed: before its second argument is there its row is the Method row *)
 Definition bstate (s : pstate) (g : ghost) (c : N) (i : N) : Prop :=
   (i <= 1 /\ kids g c = []) \/
-  (i = 2 /\ exists a0 a0o, kids g c = [a0] /\ tget (p_tree s) a0 = Some a0o /\ nodefer a0o).
+  (i = 2 /\ exists a0 a0o, kids g c = [a0] /\ tget (p_tree s) a0 = Some a0o /\ nodefer a0o /\
+            o_opcode a0o = aml_pOpIntNamePath /\ o_infoIndex a0o = npIdx /\ kids g a0 = []).
 Definition mbA (s : pstate) (g : ghost) (c : N) (af i : N) : Prop :=
   forall co, tget (p_tree s) c = Some co -> o_opcode co = aml_pOpMethod -> mtyped s g c \/ (af = methodAF /\ bstate s g c i).
 Definition mbO (s : pstate) (g : ghost) (c : N) : Prop :=
@@ -256,14 +283,14 @@ Definition finsert (s' : pstate) (g g' : ghost) (c : N) : Prop :=
 Definition okres (res : pres) : Prop := res = ROk \/ res = RShort.
 
 Definition D_name (fuel : nat) : Prop := forall s g top rest,
-  FD s g -> IV s -> glive g 0 -> p_scopeStack s = top :: rest -> roomD 0 s -> TM NoX s g ->
+  FD s g -> IV s -> glive g 0 -> p_scopeStack s = top :: rest -> roomD 0 s -> TM NoX s g -> nnp s top ->
   wp True (parseNamePathOrMethodCall fuel) s (fun res s' => exists g',
     FD s' g' /\ ExtD s g s' g' /\ Fr NoP (eq top) NoP s g s' g' /\ Psi s' <= Psi s + 1 /\ res <> RShort /\
     (res = ROk -> Psi s' + 4 <= Psi s /\ TM NoX s' g' /\ p_scopeStack s' = p_scopeStack s /\
                   exists x, kids g' top = kids g top ++ [x] /\ ~ glive g x)).
 
 Definition D_next (fuel : nat) : Prop := forall s g top rest,
-  FD s g -> IV s -> glive g 0 -> p_scopeStack s = top :: rest -> roomD 0 s -> TM NoX s g ->
+  FD s g -> IV s -> glive g 0 -> p_scopeStack s = top :: rest -> roomD 0 s -> TM NoX s g -> nnp s top ->
   wp True (parseNextObject fuel) s (fun res s' => exists g',
     FD s' g' /\ ExtD s g s' g' /\ Fr NoP (eq top) NoP s g s' g' /\ Psi s' <= Psi s + 1 /\
     (res = ROk -> Psi s' + 4 <= Psi s /\ TM NoX s' g' /\ p_scopeStack s' = p_scopeStack s)).
@@ -298,7 +325,7 @@ Definition D_args (fuel : nat) : Prop := forall ii op fl af curObj argIndex s g,
 Definition D_arg (fuel : nat) : Prop := forall op fl af curObj argTy s g,
   FD s g -> IV s -> glive g 0 -> glive g curObj -> roomD (ucost argTy) s ->
   (argTy = aml_pArgTypeFieldList -> has_parent g curObj /\ LastNum s curObj /\ hasfl s curObj) ->
-  TM (fun m => m = curObj /\ nolook argTy = true) s g ->
+  TM (fun m => m = curObj /\ nolook argTy = true) s g -> nnp s curObj ->
   wp True (parseArg fuel (op, fl, af) curObj argTy) s (fun '(a, res) s' => exists g',
     FD s' g' /\ ExtD s g s' g' /\
     Fr NoP (eq curObj) (fun y => argTy = aml_pArgTypeFieldList /\ In curObj (kids g y)) s g s' g' /\
@@ -309,14 +336,16 @@ Definition D_arg (fuel : nat) : Prop := forall op fl af curObj argTy s g,
                   TM (fun m => m = curObj /\ nolook argTy = true) s' g') /\
     (res = RShort -> argTy = aml_pArgTypeFieldList) /\
     (res = ROk -> argTy = aml_pArgTypeByteData ->
-       exists obj po v, a = Some obj /\ tget (p_tree s') obj = Some po /\ o_value po = Some (VNum v) /\ nodefer po) /\
+       exists obj po v, a = Some obj /\ tget (p_tree s') obj = Some po /\ o_value po = Some (VNum v) /\ nodefer po /\
+                        o_opcode po = aml_pOpBytePrefix /\ o_infoIndex po = bpIdx) /\
     (res = ROk -> argTy = aml_pArgTypeNameString ->
-       exists obj po, a = Some obj /\ tget (p_tree s') obj = Some po /\ nodefer po) /\
+       exists obj po, a = Some obj /\ tget (p_tree s') obj = Some po /\ nodefer po /\
+                      o_opcode po = aml_pOpIntNamePath /\ o_infoIndex po = npIdx /\ kids g' obj = []) /\
     (res = ROk -> argTy = aml_pArgTypePkgLen -> a = None) /\
     (res = ROk -> argTy <> aml_pArgTypeFieldList)).
 
 Definition D_strict (fuel : nat) : Prop := forall curObj s g,
-  FD s g -> IV s -> glive g 0 -> glive g curObj -> roomD 0 s -> TM NoX s g ->
+  FD s g -> IV s -> glive g 0 -> glive g curObj -> roomD 0 s -> TM NoX s g -> nnp s curObj ->
   wp True (parseStrictTermArg fuel curObj) s (fun '(a, res) s' => exists g',
     FD s' g' /\ ExtD s g s' g' /\ Fr NoP (eq curObj) NoP s g s' g' /\ fresh_root g g' a /\ Psi s' <= Psi s + 1 /\ res <> RShort /\
     (res = ROk -> Psi s' + 4 <= Psi s /\ TM NoX s' g' /\ p_scopeStack s' = p_scopeStack s /\ kids g' curObj = kids g curObj)).
@@ -328,13 +357,13 @@ Definition D_target (fuel : nat) : Prop := forall s g,
     (res = ROk -> Psi s' <= Psi s /\ TM NoX s' g' /\ p_scopeStack s' = p_scopeStack s)).
 
 Definition D_termlist (fuel : nat) : Prop := forall s g top rest,
-  FD s g -> IV s -> glive g 0 -> p_scopeStack s = top :: rest -> roomD 0 s -> TM NoX s g ->
+  FD s g -> IV s -> glive g 0 -> p_scopeStack s = top :: rest -> roomD 0 s -> TM NoX s g -> nnp s top ->
   wp True (termList_go fuel) s (fun ok s' => exists g',
     FD s' g' /\ ExtD s g s' g' /\ Fr NoP (eq top) NoP s g s' g' /\ Psi s' <= Psi s + 1 /\
     (ok = true -> Psi s' <= Psi s /\ TM NoX s' g' /\ p_scopeStack s' = p_scopeStack s)).
 
 Definition D_callargs (fuel : nat) : Prop := forall cnt s g top rest,
-  FD s g -> IV s -> glive g 0 -> p_scopeStack s = top :: rest -> roomD 0 s -> TM NoX s g ->
+  FD s g -> IV s -> glive g 0 -> p_scopeStack s = top :: rest -> roomD 0 s -> TM NoX s g -> nnp s top ->
   wp True (callArgs_go fuel cnt) s (fun ok s' => exists g',
     FD s' g' /\ ExtD s g s' g' /\ Fr NoP (eq top) NoP s g s' g' /\ Psi s' <= Psi s + 1 /\
     (ok = true -> Psi s' <= Psi s /\ TM NoX s' g' /\ p_scopeStack s' = p_scopeStack s)).
